@@ -22,28 +22,28 @@ abbrev Count := UInt32
 namespace Count
 
 /-- `counter.count &= 0x00ffffff` -/
-def maskTo24Bits (c : UInt32) : Count := c &&& 0x00ffffff
+def maskTo24Bits (c : UInt32) : UInt32 := c &&& 0x00ffffff
 
 /-- `Get()` masks the stored word in place and returns it: (counter afterwards, value). -/
-def get (c : UInt32) : Count × UInt32 := (maskTo24Bits c, maskTo24Bits c)
+def get (c : UInt32) : UInt32 × UInt32 := (maskTo24Bits c, maskTo24Bits c)
 
 /-- `counter.count++; maskTo24Bits()` (the `++` wraps at 2^32 first). -/
-def addOne (c : UInt32) : Count := maskTo24Bits (c + 1)
+def addOne (c : UInt32) : UInt32 := maskTo24Bits (c + 1)
 
 /-- `uint8(counter.count & 0x000000ff)` -/
-def sqn (c : UInt32) : UInt8 := (c &&& 0x000000ff).toUInt8
+def sqn (c : UInt32) : UInt8 := (c &&& (0x000000ff : UInt32)).toUInt8
 
 /-- `counter.count = (counter.count & 0xffffff00) | uint32(sqn)` -/
-def setSQN (c : UInt32) (s : UInt8) : Count := (c &&& 0xffffff00) ||| s.toUInt32
+def setSQN (c : UInt32) (s : UInt8) : UInt32 := (c &&& (0xffffff00 : UInt32)) ||| (s.toUInt32 : UInt32)
 
 /-- `uint16((counter.count & 0x00ffff00) >> 8)` -/
-def overflow (c : UInt32) : UInt16 := ((c &&& 0x00ffff00) >>> 8).toUInt16
+def overflow (c : UInt32) : UInt16 := ((c &&& (0x00ffff00 : UInt32)) >>> 8).toUInt16
 
 /-- `counter.count = (counter.count & 0xff0000ff) | (uint32(overflow) << 8)` -/
-def setOverflow (c : UInt32) (o : UInt16) : Count := (c &&& 0xff0000ff) ||| (o.toUInt32 <<< 8)
+def setOverflow (c : UInt32) (o : UInt16) : UInt32 := (c &&& (0xff0000ff : UInt32)) ||| ((o.toUInt32 : UInt32) <<< (8 : UInt32))
 
 /-- `Set(overflow, sqn)` = `SetOverflow(overflow); SetSQN(sqn)` -/
-def set (c : UInt32) (o : UInt16) (s : UInt8) : Count := setSQN (setOverflow c o) s
+def set (c : UInt32) (o : UInt16) (s : UInt8) : UInt32 := setSQN (setOverflow c o) s
 
 end Count
 
@@ -180,21 +180,46 @@ def nasDecodeNilable (P : Prims) (ue : UeSec) (sht : UInt8) : Option Bytes → U
   | none => (ue, .error .error)
   | some payload => nasDecode P ue sht payload
 
-/-- `GetNasPdu(ue, msg)`: `ies` lists `msg.ProtocolIEs.List` as `some v` for an IE whose id is
-    `ProtocolIEIDNASPDU` (value `v`) and `none` for any other IE. The first NAS-PDU IE decides:
+/-- `GetNasPdu(ue, msg)` over a given `NASDecode`: `ies` lists `msg.ProtocolIEs.List` as `some v` for an IE whose
+    id is `ProtocolIEIDNASPDU` (value `v`) and `none` for any other IE. The first NAS-PDU IE decides:
     header type = `pkg[1]` (`nas.GetSecurityHeaderType`), an error from `NASDecode` becomes `nil`.
     Result `none` = returned `nil`. -/
-def getNasPdu (P : Prims) (ue : UeSec) : List (Option Bytes) → UeSec × Res (Option Bytes)
+def getNasPduWith (dec : UeSec → UInt8 → Bytes → UeSec × Res Bytes) (ue : UeSec) :
+    List (Option Bytes) → UeSec × Res (Option Bytes)
   | [] => (ue, .ok none)
-  | none :: rest => getNasPdu P ue rest
+  | none :: rest => getNasPduWith dec ue rest
   | some pkg :: _ =>
     match pkg with
     | _ :: sht :: _ =>
-      match nasDecode P ue sht pkg with
+      match dec ue sht pkg with
       | (ue', .ok b) => (ue', .ok (some b))
       | (ue', .error .panic) => (ue', .error .panic)
       | (ue', .error .hang) => (ue', .error .hang)
       | (ue', .error .error) => (ue', .ok none)
     | _ => (ue, .error .panic)
+
+def getNasPdu (P : Prims) (ue : UeSec) (ies : List (Option Bytes)) : UeSec × Res (Option Bytes) :=
+  getNasPduWith (nasDecode P) ue ies
+
+def getNasPduLegacy (P : Prims) (ue : UeSec) (ies : List (Option Bytes)) : UeSec × Res (Option Bytes) :=
+  getNasPduWith (nasDecodeLegacy P) ue ies
+
+/-! ### histories: the same `*RanUeContext` is used for one call after the other -/
+
+/-- a sequence of `NASEncode` calls on one UE context: final context and the result of every call -/
+def runEncode (P : Prims) : UeSec → List UlOp → UeSec × List (Res Bytes)
+  | ue, [] => (ue, [])
+  | ue, op :: ops =>
+    let r := nasEncode P ue op
+    let rs := runEncode P r.1 ops
+    (rs.1, r.2 :: rs.2)
+
+/-- a sequence of `NASDecode(ue, sht, payload)` calls on one UE context -/
+def runDecode (P : Prims) : UeSec → List (UInt8 × Bytes) → UeSec × List (Res Bytes)
+  | ue, [] => (ue, [])
+  | ue, m :: ms =>
+    let r := nasDecode P ue m.1 m.2
+    let rs := runDecode P r.1 ms
+    (rs.1, r.2 :: rs.2)
 
 end Stgutg.Model.NasProtect
